@@ -61,3 +61,27 @@ Example C15_transform_on_example :
   det m <> qc0 /\ resolve_n (transform_set m ex_gs) n_c = option_map (map (aff_contour m)) (resolve_n ex_gs n_c).
 Proof. exact ex_transform. Qed.
 Print Assumptions C15_transform_on_example.
+
+(* ---- the matrix TransformationsFilter builds from its options ----
+   set_context appends translate(Offset), translate(0, origin), scale, skew(Slant), translate(0, -origin), skipping each
+   step that is the identity; for all option values this is the closed form the check states independently as the
+   "requested matrix" (t = tan of the slant angle), and it acts on a point as: slant about the origin height, then
+   scale about it, then offset. *)
+From U2F Require Import Geometry.TransformMatrix Geometry.TransformMatrixProofs.
+
+Theorem C15_requested_matrix_closed_form : forall ox oy fx fy t h,
+  build_matrix ox oy fx fy t h = closed_form ox oy fx fy t h.
+Proof. exact build_matrix_closed_form. Qed.
+Print Assumptions C15_requested_matrix_closed_form.
+
+Theorem C15_requested_matrix_on_a_point : forall ox oy fx fy t h p,
+  aff_pnt (build_matrix ox oy fx fy t h) p =
+  mkP (ox + fx * (px p + t * (py p - h))) (oy + h + fy * (py p - h)) (on p).
+Proof. exact build_matrix_point. Qed.
+Print Assumptions C15_requested_matrix_on_a_point.
+
+Example C15_scale_and_slant_do_not_commute :
+  let m := compose (compose aff_id (a_skew (Q2Qc (1#2)))) (a_scale (Q2Qc 2) (Q2Qc 1)) in
+  affine_eqb m (build_matrix qc0 qc0 (Q2Qc 2) (Q2Qc 1) (Q2Qc (1#2)) qc0) = false.
+Proof. exact swapped_order_differs. Qed.
+Print Assumptions C15_scale_and_slant_do_not_commute.
